@@ -115,7 +115,7 @@ def orig_clean_by_tomo_mask(self, tomo_list, tomo_masks, inplace=True, output_fi
     cleaned_motl = Motl.load(self)
     for i, t in enumerate(tomos):
         tm = self.get_motl_subset(t, reset_index=True)
-        coords = tm.get_coordinates().astype(int)
+        coords = np.floor(tm.get_coordinates()).astype(int)
         if requries_loading:
             tomo_mask = cryomap.binarize(tomo_masks[i])
         within_bounds = (
